@@ -76,7 +76,9 @@ Paths ==
   {<<>>}
   \cup {<<V(c)>> : c \in VerClasses}
   \cup {<<V(c), t>> : c \in VerClasses, t \in {J(j) : j \in JunkClasses} \cup {B(d) : d \in {x \in Datas : x.len > 0}}}
-  \cup {<<V(c)>> \o pad \o <<S>> \o tl : c \in VerClasses, pad \in Pads, tl \in Tails}
+  \cup {<<V("zero")>> \o pad \o <<S>> \o tl : pad \in Pads, tl \in Tails}
+  \* after a first character other than 0 nothing matters: short paddings suffice
+  \cup {<<V(c)>> \o pad \o <<S>> \o tl : c \in VerClasses \ {"zero"}, pad \in {q \in Pads : Len(q) <= 1}, tl \in Tails}
 
 VARIABLES cs
 vars == <<cs>>
